@@ -139,8 +139,9 @@ class Module:
         augment(self.tree)
         from .normalize import canonical_tests
 
-        from .normalize import canonical_operands
+        from .normalize import canonical_operands, canonical_while
 
+        canonical_while(self.tree)
         canonical_operands(self.tree)
         canonical_tests(self.tree)
         from .normalize import canonical_queue_calls, expand_ternary_assignments
@@ -149,6 +150,9 @@ class Module:
         from .normalize import canonical_dicts
 
         canonical_dicts(self.tree)
+        from .normalize import recompose
+
+        recompose(self.tree)
         expand_ternary_assignments(self.tree)
         if not os.environ.get('MPSA_NO_RENAME_TOLERANCE'):
             from .anchors import load_anchors as _la
